@@ -247,11 +247,54 @@ def rule_clock_costs(run):
     run.end()
 
 
+def rule_straight_line(run):
+    run.begin(
+        "C01.h",
+        "case-when lowering of a match is only used for straight-line branches: a branch body is lowered into a fresh "
+        "block and the lowering must have ended in exactly that block (one open block, identical to the fresh one); any "
+        "branch containing a state transition falls back to the if/else lowering, which threads the open blocks",
+        floor=2,
+    )
+    gen = run.idx.mod(GEN)
+    f = gen.func("IrGenerator._apply_impl.<locals>.gen_case_when.<locals>.gen_bodies")
+    found = P.find(f.node, "__c = self.apply(__code, open_blocks=[__b])")
+    if len(found) != 1:
+        raise AnalysisError("gen_bodies: lowering of a branch body into a fresh block not recognised")
+    b = found[0][1]
+    guard = [g for g in ast.walk(f.node) if isinstance(g, ast.If) and g.body and isinstance(g.body[-1], ast.Return) and isinstance(g.body[-1].value, ast.Constant) and g.body[-1].value.value is None]
+    ok_len = any(P.has(g.test, "len(__c) != 1", {"__c": b["__c"]}) for g in guard)
+    ok_id = any(P.has(g.test, "__c[0] is not __b", {"__c": b["__c"], "__b": b["__b"]}) for g in guard)
+    both_or = any(isinstance(g.test, ast.BoolOp) and isinstance(g.test.op, ast.Or) for g in guard if P.has(g.test, "len(__c) != 1", {"__c": b["__c"]})) or (ok_len and ok_id and len(guard) >= 2)
+    run.ob(ok_len, "gen_case_when.gen_bodies", file=gen.rel, line=f.node.lineno, detail="single-open-block", expected="fall back (return None) unless exactly one open block remains", found="ok" if ok_len else "missing")
+    run.ob(ok_id and both_or, "gen_case_when.gen_bodies", file=gen.rel, line=f.node.lineno, detail="same-block", expected="fall back (return None) unless the remaining open block IS the fresh branch block (no transition inside the branch)",
+           found="ok" if ok_id and both_or else "; ".join(src(g.test) for g in guard) or "no guard")
+    # the caller propagates the fall-back
+    gcw = gen.func("IrGenerator._apply_impl.<locals>.gen_case_when")
+    calls = [c for c in calls_in(gcw.node) if dotted(c.func) == "gen_bodies"]
+    n_checked = 0
+    for c in calls:
+        st = gen.parents.enclosing_stmt(c)
+        if isinstance(st, ast.Assign) and isinstance(st.targets[0], ast.Name):
+            v = st.targets[0].id
+            blk = getattr(gen.parents.of(st), gen.parents.field_of(st))
+            nxt = blk[blk.index(st) + 1] if blk.index(st) + 1 < len(blk) else None
+            ok = isinstance(nxt, ast.If) and src(nxt.test) == f"{v} is None" and isinstance(nxt.body[-1], ast.Return)
+            n_checked += 1
+            run.ob(ok, "gen_case_when", file=gen.rel, line=c.lineno, detail=f"fallback-propagated#{n_checked}", expected="if ir_bodies is None: return None", found="ok" if ok else "result used unchecked")
+    if n_checked < 2:
+        raise AnalysisError("gen_case_when: calls of gen_bodies not recognised")
+    run.end()
+
+
+def rule_with_exit(run):
+    c03.rule_with_exit(run)
+
+
 def rule_if_merge(run):
     c03.rule_if_merge(run)
 
 
-RULES = [rule_transitions, rule_states, rule_edges, rule_fail_closed, rule_loop_state, rule_clock_costs, rule_if_merge]
+RULES = [rule_transitions, rule_states, rule_edges, rule_fail_closed, rule_loop_state, rule_clock_costs, rule_if_merge, rule_straight_line, rule_with_exit]
 LEVEL = "other"
 EXPLANATION = (
     "Only the structural core of the coroutine->state-machine translation is decided: transitions are front-inserted "
